@@ -440,9 +440,13 @@ var _ = io.EOF
 // together; measured on the multiplexer alone: ~4 losses per 20000 streams at GOMAXPROCS 2, none at 1 or 16): every byte must still arrive before the end-of-stream.
 func TestWriteThenCloseHammer(t *testing.T) {
 	n := vlib.Pick(40000, 400000)
-	for round, procs := range []int{2, 2} {
+	for round, procs := range []int{2, 2, 0} {
 		if round == 1 {
 			hammerAppWritesAndCloses(t, n/2, runtime.NumCPU())
+			continue
+		}
+		if round == 2 {
+			hammerTargetWritesAndClosesInParallel(t, n/2, 8)
 			continue
 		}
 		old := runtime.GOMAXPROCS(procs)
@@ -491,6 +495,77 @@ func TestWriteThenCloseHammer(t *testing.T) {
 			}
 			vlib.Rec.Extra(fmt.Sprintf("hammer_connections_gomaxprocs_%d", procs), n/2)
 		}()
+	}
+}
+
+// hammerTargetWritesAndClosesInParallel: the first hammer with several applications at a time, all processors, and a
+// target on a unix-domain socket (the end of the target's connection reaches the server sooner after its last bytes than
+// over TCP): the target writes 1-97 bytes and closes at once, the application must read exactly those bytes before
+// end-of-stream.
+func hammerTargetWritesAndClosesInParallel(t *testing.T, n, workers int) {
+	tgt := vlib.NewUnixTarget("data", func(tc *vlib.TargetConn) {
+		b := make([]byte, 1)
+		if _, err := io.ReadFull(tc.Conn, b); err != nil {
+			tc.Conn.Close()
+			return
+		}
+		k := int(b[0])%97 + 1
+		tc.Conn.Write(vlib.PRF(uint64(k), 0, k))
+		tc.Conn.Close()
+	})
+	defer tgt.Close()
+	p, err := vlib.StartPair(vlib.PairConfig{Carrier: vlib.CarTCP,
+		Channels:  []vlib.ChannelSpec{{Name: "data", Target: tgt.URL()}},
+		Listeners: []vlib.ListenerSpec{{Channel: "data"}}})
+	if err != nil {
+		vlib.Rec.Inconclusive("bind")
+		return
+	}
+	defer p.Close()
+	var next int64
+	var failed int32
+	var mu sync.Mutex
+	firstMsg := ""
+	var wg sync.WaitGroup
+	for w := 0; w < workers; w++ {
+		wg.Add(1)
+		go func() {
+			defer wg.Done()
+			for atomic.LoadInt32(&failed) == 0 {
+				i := int(atomic.AddInt64(&next, 1))
+				if i > n {
+					return
+				}
+				c, err := p.Dial("data")
+				if err != nil {
+					continue
+				}
+				sel := byte(i * 7)
+				k := int(sel)%97 + 1
+				c.Write([]byte{sel})
+				data, ended, endErr := readToEOF(c, 20*time.Second)
+				c.Close()
+				if i%2000 == 0 {
+					vlib.Rec.Case(fmt.Sprintf("hammer-parallel|%d", i), true, []string{"write-then-close-hammer", "parallel-applications"}, func() interface{} {
+						return map[string]interface{}{"test": "write-then-close-hammer", "applications_at_a_time": workers, "connection": i, "bytes": k}
+					})
+				}
+				if vlib.FirstDiff(data, vlib.PRF(uint64(k), 0, k)) != -1 || !ended {
+					if atomic.CompareAndSwapInt32(&failed, 0, 1) {
+						mu.Lock()
+						firstMsg = fmt.Sprintf("connection %d (%d applications at a time, target on a unix socket): target wrote %d bytes and closed at once; application received %d bytes, ended=%v (%v)", i, workers, k, len(data), ended, endErr)
+						mu.Unlock()
+					}
+					return
+				}
+			}
+		}()
+	}
+	wg.Wait()
+	vlib.Rec.Extra("hammer_connections_parallel", int(atomic.LoadInt64(&next)))
+	if firstMsg != "" {
+		vlib.Rec.Violation(map[string]interface{}{"property": "C17", "test": "write-then-close-hammer", "applications_at_a_time": workers, "problem": firstMsg})
+		t.Fatalf("C17 %s", firstMsg)
 	}
 }
 
